@@ -119,10 +119,16 @@ def gen_bytes(rng, long_ok=True):
 # ---------------------------------------------------------------- networks
 
 def gen_network(ctx, rng, idx):
-    kind = rng.choice(["2d", "2d", "2dfree", "3d", "lev", "2dang"])
+    kind = rng.choice(["2d", "2dfree", "3d", "3dmix", "3dmix", "lev", "2dang"])
+    if idx % 4 == 0:
+        kind = "3dmix"          # every run has mixed-dimension networks with vectors (y_sign, reader state)
     if kind == "lev":
         net = gen_net.levelling_network(rng, npts=rng.randint(3, 6), nfixed=1, extra=rng.randint(1, 3), noise=1.0,
                                         free=rng.random() < 0.3)
+    elif kind == "3dmix":
+        net = gen_net.make_network(rng, npts=rng.randint(3, 5), dim=3, nfixed=rng.choice([1, 2]),
+                                   kinds=("direction", "distance", "s-distance", "z-angle", "dh", "vector"), noise=1.0)
+        N.add_lower_dim_points(rng, net, n2=rng.randint(1, 3), n1=rng.randint(1, 3))
     elif kind == "3d":
         net = gen_net.make_network(rng, npts=rng.randint(4, 5), dim=3, nfixed=2,
                                    kinds=("direction", "s-distance", "z-angle", "dh"), noise=1.0, heights=False)
@@ -134,19 +140,22 @@ def gen_network(ctx, rng, idx):
     else:
         net = gen_net.make_network(rng, npts=rng.randint(3, 6), nfixed=rng.choice([1, 2, 2]), noise=1.0)
     flav = rng.choice(["plain", None, None, None, "special", "blank", "nonascii", "quote", "long"])
-    mapping = {}
-    for k, pid in enumerate(list(net["points"])):
-        mapping[pid] = N.nasty_id(rng, k + 1, flav)
-    N.rename_ids(net, mapping)
+    if kind == "3dmix" and rng.random() < 0.6:
+        flav = "keep"           # keep the interleaving of 3D / 2D / 1D points in PointID order
+    else:
+        mapping = {}
+        for k, pid in enumerate(list(net["points"])):
+            mapping[pid] = N.nasty_id(rng, k + 1, flav)
+        N.rename_ids(net, mapping)
     N.decorate(rng, net, extern=rng.choice([0.0, 0.3, 0.8]), coords=(kind != "lev" and rng.random() < 0.25),
-               vectors=(kind == "3d" and rng.random() < 0.3), obscov=0.0, hdcov=0.0)
+               vectors=(kind in ("3d", "3dmix") and rng.random() < 0.5), obscov=0.0, hdcov=0.0)
     desc = N.nasty_text(rng)
     if desc.lstrip().startswith("<"):
         # html.cpp: a description whose first character is '<' is taken to be HTML markup and copied verbatim
         # (deliberate feature); such descriptions are outside "text" descriptions
         desc = "d " + desc
-    axes = rng.choice([None, None, "ne", "en", "sw", "nw", "es", "wn", "se", "ws"])
-    angles = rng.choice([None, None, "left-handed", "right-handed"])
+    axes = rng.choice([None, "ne", "en", "sw", "nw", "es", "wn", "se", "ws"])
+    angles = rng.choice([None, "left-handed", "right-handed"])
     gkf = N.to_gkf2(net, axes=axes, angles=angles, description=desc, degrees=(rng.random() < 0.15 and kind != "lev"))
     return {"kind": kind, "net": net, "gkf": gkf, "desc": desc, "flavour": flav or "mixed", "axes": axes, "angles": angles}
 
@@ -170,16 +179,19 @@ def parse_xml_result(path):
         t = local(e.tag)
         if t == "description" and "description" not in res:
             res["description"] = e.text or ""
+        elif t == "network-general-parameters":
+            res["axes"], res["angles"] = e.get("axes-xy"), e.get("angles")
         elif t in ("fixed", "approximate", "adjusted") and any(local(c.tag) == "point" for c in e):
             key = {"approximate": "approx"}.get(t, t)
             for p in e:
                 if local(p.tag) != "point":
                     continue
-                d = {"id": (child(p, "id").text or "")}
+                d = {"id": (child(p, "id").text or ""), "order": []}
                 for c in p:
                     lt = local(c.tag)
                     if lt in ("x", "y", "z", "X", "Y", "Z"):
                         d[lt] = c.text
+                        d["order"].append(lt)
                 res[key].append(d)
         elif t == "ellipse":
             res["ellipses"].append({local(c.tag): c.text for c in e})
@@ -201,6 +213,82 @@ def parse_xml_result(path):
                    "linearization-iterations"):
             res.setdefault(t, e.text)
     return res
+
+
+def y_sign_of(x):
+    """LocalNetwork::y_sign(): +1 iff handedness of the axes equals handedness of the angles"""
+    left_axes = (x.get("axes") or "ne") in N.LEFT_AXES
+    left_angles = (x.get("angles") or "left-handed") == "left-handed"
+    return 1.0 if left_axes == left_angles else -1.0
+
+
+def final_coordinates(x):
+    co = {}
+    for p in x["fixed"] + x["adjusted"]:
+        d = co.setdefault(tok_id(p["id"]), {})
+        for c in ("x", "y", "z", "X", "Y", "Z"):
+            if c in p:
+                d[c.lower()] = float(p[c])
+    return co
+
+
+def angdiff(a, b):
+    d = (a - b) % 400.0
+    return min(d, 400.0 - d)
+
+
+def obs_consistency(x, tol_lin=3e-5, tol_ang=3e-5):
+    """every <adj> of <observations> must be the function of the adjusted/fixed coordinates (and adjusted orientations)
+    printed in the SAME file.  Linear quantities in metres, angular in gon (the XML is always in gon).
+    Second-order terms of the linearisation are far below the tolerances for the generated noise levels."""
+    import math
+    co = final_coordinates(x)
+    s = y_sign_of(x)
+    ori = {tok_id(o["id"]): float(o["adj"]) for o in x["orientations"]}
+    GON = 200.0 / math.pi
+    diffs, n = [], 0
+
+    def P(i):
+        return co.get(tok_id(i or ""))
+
+    def brg(a, b):      # bearing in gama's internal (consistent) system: y is multiplied by y_sign
+        return math.atan2(s * (b["y"] - a["y"]), b["x"] - a["x"]) * GON
+
+    for o in x["obs"]:
+        t, adj = o["tag"], float(o["adj"])
+        try:
+            if t in ("coordinate-x", "coordinate-y", "coordinate-z"):
+                want, tol, ang = P(o.get("id"))[t[-1]], tol_lin, False
+            else:
+                a, b = P(o.get("from")), P(o.get("to"))
+                if t == "dx":
+                    want, tol, ang = b["x"] - a["x"], tol_lin, False
+                elif t == "dy":
+                    want, tol, ang = b["y"] - a["y"], tol_lin, False
+                elif t == "dz" or t == "height-diff":
+                    want, tol, ang = b["z"] - a["z"], tol_lin, False
+                elif t == "distance":
+                    want, tol, ang = math.hypot(b["x"] - a["x"], b["y"] - a["y"]), tol_lin, False
+                elif t == "slope-distance":
+                    want, tol, ang = math.sqrt((b["x"] - a["x"]) ** 2 + (b["y"] - a["y"]) ** 2 + (b["z"] - a["z"]) ** 2), tol_lin, False
+                elif t == "zenith-angle":
+                    sd = math.sqrt((b["x"] - a["x"]) ** 2 + (b["y"] - a["y"]) ** 2 + (b["z"] - a["z"]) ** 2)
+                    want, tol, ang = math.acos((b["z"] - a["z"]) / sd) * GON, tol_ang, True
+                elif t == "direction":
+                    want, tol, ang = brg(a, b) - s * ori[tok_id(o["from"])], tol_ang, True
+                elif t == "angle":
+                    l, r = P(o.get("left")), P(o.get("right"))
+                    want, tol, ang = brg(a, r) - brg(a, l), tol_ang, True
+                else:
+                    continue        # azimuth: depends on the absolute orientation of the axes
+        except (KeyError, TypeError, ZeroDivisionError, ValueError):
+            continue                # a coordinate of the point is not in this file (e.g. dz to a plane point)
+        n += 1
+        d = angdiff(adj, want) if ang else abs(adj - want)
+        if d > tol:
+            diffs.append(f"<{t}> {o.get('from') or o.get('id')}->{o.get('to') or o.get('right') or ''}: <adj> {adj!r} but the "
+                         f"adjusted coordinates of the same file give {want % 400.0 if ang else want!r} (diff {d:.3g})")
+    return diffs, n
 
 
 def tok_id(s):
@@ -245,9 +333,28 @@ def compare_reader(x, d):
         if len(x[key]) != len(d[dk]):
             diffs.append(f"{key}: {len(x[key])} points in XML, reader has {len(d[dk])}")
             continue
+        seq = 0
         for a, b in zip(x[key], d[dk]):
             if tok_id(a["id"]) != b["id"]:
                 diffs.append(f"{key} id {a['id']!r} read as {b['id']!r}")
+            # which coordinates are present, what the absent ones hold, which adjustment indexes are handed out:
+            # every point record must be a function of its own child elements only
+            hxy, hz = ("x" in a or "X" in a), ("z" in a or "Z" in a)
+            want_ind = [0, 0, 0]
+            if key == "adjusted":
+                if hxy:
+                    want_ind[0], want_ind[1] = seq + 1, seq + 2
+                    seq += 2
+                if hz:
+                    want_ind[2] = seq + 1
+                    seq += 1
+            if b["hxy"] != hxy or b["hz"] != hz:
+                diffs.append(f"{key} {a['id']!r}: has xy/z {hxy}/{hz} read as {b['hxy']}/{b['hz']}")
+            if b["ind"] != want_ind:
+                diffs.append(f"{key} {a['id']!r}: adjustment indexes read as {b['ind']}, expected {want_ind}")
+            if (not hxy and (b["x"] != 0.0 or b["y"] != 0.0 or b["cxy"])) or (not hz and (b["z"] != 0.0 or b["cz"])):
+                diffs.append(f"{key} {a['id']!r}: absent coordinates read as x={b['x']} y={b['y']} z={b['z']} "
+                             f"(left over from another point)")
             for cx, cy, cz, con in (("x", "y", "z", False), ("X", "Y", "Z", True)):
                 if cx in a:
                     if float(a[cx]) != b["x"] or float(a[cy]) != b["y"] or b["cxy"] != con or not b["hxy"]:
@@ -329,6 +436,23 @@ def read_text_adjusted(txt):
             res[(cur, m.group(2).lower())] = m.group(5)
         elif l.strip() and not re.match(r"^\s*\d+\s", l):
             cur = l.strip()
+    return res
+
+
+def read_text_adjobs(txt):
+    """{i: (observed, adjusted)} from the English table "Adjusted observations" (rows whose values are plain decimals)"""
+    res = {}
+    lines = txt.split("\n")
+    try:
+        i0 = next(i for i, l in enumerate(lines) if l.startswith("Adjusted observations"))
+    except StopIteration:
+        return res
+    for l in lines[i0 + 5:]:
+        if l.startswith("Residuals and analysis") or l.startswith("Outlying"):
+            break
+        m = re.match(r"^\s*(\d+)\s.*?\s(-?\d+\.\d+)\s+(-?\d+\.\d+)\s+(-?\d+\.\d+)\s+(-?\d+\.\d+)\s*$", l)
+        if m:
+            res[int(m.group(1))] = (m.group(2), m.group(3))
     return res
 
 
@@ -441,6 +565,31 @@ def check_network(ctx, gdir, exe, case, wd, idx, corr, ops):
     rec["ok"] = True
     dim = x["dim"]
     rec["dim"], rec["x"] = dim, x
+    # every <adj> of <observations> is the function of the adjusted coordinates / orientations of the same file
+    od, on = obs_consistency(x)
+    corr.count("obs_adj_checked", on)
+    if y_sign_of(x) < 0:
+        corr.count("networks_y_sign_minus")
+        corr.count("dy_checked_y_sign_minus", sum(1 for o in x["obs"] if o["tag"] == "dy"))
+    if od:
+        corr.fail("an adjusted observation in the XML is not the function of the adjusted coordinates of the same XML",
+                  dict(payload, diffs=od[:5], axes=x.get("axes"), angles=x.get("angles")), "WriteXMLVisitor", "; ".join(od[:4]))
+    # statistics of the same file: dof = equations - unknowns + defect, m0 = sqrt([pvv]/dof)
+    try:
+        eq, un, df, dof = (int(x[k]) for k in ("equations", "unknowns", "defect", "degrees-of-freedom"))
+        pvv, m0 = float(x["sum-of-squares"]), float(x["aposteriori"])
+        if dof != eq - un + df:
+            corr.fail("degrees of freedom in the XML != equations - unknowns + defect", payload, "LocalNetworkXML::equations_summary",
+                      f"{dof} vs {eq} - {un} + {df}")
+        if len(x["obs"]) != eq:
+            corr.fail("number of <observations> children != <equations>", payload, "LocalNetworkXML::observations", f"{len(x['obs'])} vs {eq}")
+        want = (pvv / dof) ** 0.5 if dof > 0 else 0.0
+        if abs(m0 - want) > 2e-7 * max(want, 1e-30) + 1e-12:
+            corr.fail("aposteriori standard deviation in the XML != sqrt([pvv]/dof)", payload, "LocalNetworkXML::std_dev_summary",
+                      f"{m0} vs {want}")
+        corr.count("statistics_checked")
+    except (KeyError, ValueError, TypeError):
+        pass
     # identifiers are the input's (faithful): set comparison after PointID normalisation
     want = {N.pid_norm(p) for p in case["net"]["points"]}
     got = {tok_id(p["id"]) for p in x["fixed"] + x["adjusted"]}
@@ -457,6 +606,17 @@ def check_network(ctx, gdir, exe, case, wd, idx, corr, ops):
     # (b) gama's reader, field by field
     ops.append([f"read {xmlp}"])
     rec["read_case"] = len(ops) - 1
+    # the reader's point records vs the state-machine model, section by section (children in document order)
+    rec["points_cases"] = []
+    for sect, key in (("fixed", "fixed"), ("approximate", "approx"), ("adjusted", "adjusted")):
+        toks = []
+        for p in x[key]:
+            toks += ["P", "I", hexs(tok_id(p["id"]).encode("utf-8"))]
+            for c in p["order"]:
+                toks += [c, p[c]]
+            toks.append("E")
+        ops.append([f"points {xmlp} {sect} " + " ".join(toks)])
+        rec["points_cases"].append((sect, len(ops) - 1))
     # covariance band: every band value
     full = x["flt"]
     if len(full) != dim * (dim + 1) // 2:
@@ -503,6 +663,21 @@ def check_network(ctx, gdir, exe, case, wd, idx, corr, ops):
                       cmd2=f"gama-local n.gkf --xml r.xml --cov-band {b}; gama-local-deformation r.xml r.xml"),
                       "GamaLocalDeformation::write_txt", (err or out)[-600:])
             break
+        rows = re.findall(r"^(.*?)\s+(\d+) \s*(\d+) \s*(\d+)\s+-?\d+\.\d+\s+-?\d+\.\d+\s+-?\d+\.\d+\s", out, re.M)
+        have = {tok_id(r_[0]): [int(v) != 0 for v in r_[1:4]] for r_ in rows}
+        wantc = {}
+        for p_ in x["adjusted"]:
+            hxy_, hz_ = ("x" in p_ or "X" in p_), ("z" in p_ or "Z" in p_)
+            wantc[tok_id(p_["id"])] = [hxy_, hxy_, hz_]
+        badc = [(k_, have[k_], wantc[k_]) for k_ in have if k_ in wantc and have[k_] != wantc[k_]]
+        mdim = re.search(r"# deformation covariance matrix.*?\n\s*(\d+)\s+(\d+)\s*\n", out, re.S)
+        ncoord = sum(sum(v) for k_, v in wantc.items() if k_ in have)
+        if badc or (mdim and int(mdim.group(1)) != ncoord):
+            corr.fail("gama-local-deformation gives a point coordinates / covariance rows it does not have in the XML",
+                      dict(payload, band=b, first=str(badc[:3]), cov_dim=(mdim.group(1) if mdim else None), expected_dim=ncoord),
+                      "GamaLocalDeformation / LocalNetworkAdjustmentResults::Parser::point",
+                      f"{badc[:3]} cov dim {mdim.group(1) if mdim else None} expected {ncoord}")
+            break
         if any(float(v) != 0.0 for s in shifts for v in s[1:]) or len(shifts) == 0:
             corr.fail("gama-local-deformation of a result with itself reports non-zero shifts / no points",
                       dict(payload, band=b), "GamaLocalDeformation", out[-600:])
@@ -532,6 +707,22 @@ def check_network(ctx, gdir, exe, case, wd, idx, corr, ops):
                       "AdjustedUnknowns", f"{v} vs {cand}")
             break
     corr.count("text_coords_compared", sum(1 for k in adj if k in tadj))
+    rec["angular"] = angular
+    ANG = ("direction", "angle", "zenith-angle", "azimuth")
+    tobs = read_text_adjobs(txt)
+    for i, o in enumerate(x["obs"], 1):
+        if i in tobs and not (angular == "360" and o["tag"] in ANG):
+            v = float(o["adj"])
+            tv = float(tobs[i][1])
+            nd = len(tobs[i][1].split(".")[1])
+            dd = abs(v - tv)
+            if o["tag"] in ANG:
+                dd = min(dd, abs(dd - 400.0))
+            if dd > 0.5000001 * 10 ** (-nd) + 1e-12 * abs(v):
+                corr.fail("XML and --text disagree on an adjusted observation", dict(payload, index=i, tag=o["tag"], xml=o["adj"],
+                          text=tobs[i][1]), "AdjustedObservations / WriteXMLVisitor", f"#{i} <{o['tag']}> {o['adj']} vs {tobs[i][1]}")
+                break
+            corr.count("text_adjobs_compared")
     oc, oerr = read_octave(Path(f"{base}.octave").read_text(encoding="utf-8", errors="replace"))
     if oc is None:
         corr.fail("Octave output cannot be read back (identifier breaks the .m syntax)", payload, "LocalNetworkOctave", oerr)
@@ -633,6 +824,16 @@ def _correspond(ctx, corr, gdir, exe, rng, wd):
             if diffs:
                 corr.fail("gama's reader does not return what the XML says", dict(payload, diffs=diffs[:6]),
                           "LocalNetworkAdjustmentResults::Parser", "; ".join(diffs[:6]))
+        mixed = len({(("x" in p or "X" in p), ("z" in p or "Z" in p)) for p in x["adjusted"] + x["fixed"]}) > 1
+        if mixed:
+            corr.count("mixed_dimension_networks")
+        for sect, j in rec["points_cases"]:
+            corr.case(key=("points", rec["idx"], sect) if mixed else None)
+            corr.count("points_cases")
+            if j in crashes:
+                continue
+            if not points_equal(impl[j], model[j]):
+                corr.disagree("points", [ops[j][0][:400], {"gkf": c["gkf"], "section": sect}], impl[j][:12], model[j][:12])
         ein, eout = rec["ext"]
         if ein != eout and not (set(eout) <= set(ein) and c["kind"] == "corpus"):
             # vectors: extern is written on dx only in the comparison above; coordinates: cluster attribute
@@ -680,6 +881,23 @@ def _correspond(ctx, corr, gdir, exe, rng, wd):
                     corr.fail("XML and HTML (read by gama's HtmlParser) disagree on adjusted coordinates",
                               dict(payload, first=[str(b) for b in bad[:3]]), "HtmlParser/GamaLocalHTML", str(bad[:3]))
                 corr.count("html_coords_compared", len(hadj))
+                ANG = ("direction", "angle", "zenith-angle", "azimuth")
+                if len(h["obs"]) == len(x["obs"]):
+                    for i, (a, b) in enumerate(zip(x["obs"], h["obs"]), 1):
+                        if a["tag"] != b["tag"] and not (a["tag"].startswith("coordinate") or a["tag"] in ("dx", "dy", "dz")):
+                            continue
+                        if rec.get("angular") == "360" and a["tag"] in ANG:
+                            continue
+                        v, hv = float(a["adj"]), b["v"][1]
+                        dd = abs(v - hv)
+                        if a["tag"] in ANG:
+                            dd = min(dd, abs(dd - 400.0))
+                        if dd > (0.51e-6 if a["tag"] in ANG else 0.51e-5) + 1e-12 * abs(v):
+                            corr.fail("XML and HTML (read by gama's HtmlParser) disagree on an adjusted observation",
+                                      dict(payload, index=i, tag=a["tag"], xml=a["adj"], html=hv), "GamaLocalHTML / WriteXMLVisitor",
+                                      f"#{i} <{a['tag']}> {a['adj']} vs {hv}")
+                            break
+                        corr.count("html_adjobs_compared")
     # ---- stream 3: two different results through compare-xyz; languages x encodings of the text output
     good = [(r, c) for r, c in zip(recs, nets) if r["ok"] and c["kind"] != "corpus"]
     for r, c in good[: ctx.size(3, 20)]:
@@ -699,6 +917,25 @@ def corpus_net_info(gkf):
         if local(e.tag) == "description":
             desc = e.text or ""
     return {"points": pts, "obs": []}, desc
+
+
+def points_equal(impl, model):
+    """reader's point records (hex doubles) vs the model's (decimal strings of the XML)"""
+    if len(impl) != len(model):
+        return False
+    for a, b in zip(impl, model):
+        ta, tb = a.split(), b.split()
+        if len(ta) != len(tb):
+            return False
+        if ta[0] != "pt":
+            if ta != tb:
+                return False
+            continue
+        if ta[1:6] != tb[1:6] or ta[9:] != tb[9:]:
+            return False
+        if any(hex2float(u) != float(v) for u, v in zip(ta[6:9], tb[6:9])):
+            return False
+    return True
 
 
 def band_equal(impl, model):
@@ -864,7 +1101,10 @@ def classify(ctx, f):
     if "read_html refuses gama's own HTML" in w and "not well-formed" in d and \
             re.search(r'id="[^"]*(&(amp|lt);|\]\]&gt;)', str(f.replay.get("gkf", ""))):
         return "F23"
-    if "XML and HTML (read by gama's HtmlParser) disagree" in w and re.search(r"id=\"[^\"]*&(amp|lt|gt|apos|quot);", str(f.replay.get("gkf", ""))):
+    if "disagree on an adjusted observation" in w and f.replay.get("tag") == "coordinate-y" and "HTML" in w \
+            and abs(float(f.replay.get("xml", 0)) + float(f.replay.get("html", 0))) < 1e-4:
+        return "F24"
+    if "XML and HTML (read by gama's HtmlParser) disagree on adjusted coordinates" in w and re.search(r"id=\"[^\"]*&(amp|lt|gt|apos|quot);", str(f.replay.get("gkf", ""))):
         return "F20"
     return None
 
